@@ -45,6 +45,7 @@ The productions that the fragment cannot reach (spreads — fail at the first ch
 other primaries) are left out of the fragment parser; that it agrees with the real parser on the
 fragment's texts is what the differential checks.
 -/
+import QuiverModel.Core.Prelude
 import QuiverModel.Core.Parse.Type
 import QuiverModel.Core.Text.Doc
 namespace QM.Text
@@ -75,6 +76,10 @@ mutual
     unnamed or named (`x: t`). -/
 inductive T where
   | leaf (name : Str)
+  /-- `Term::Literal(Literal::Integer(i))` -/
+  | int (i : Int)
+  /-- `Term::Literal(Literal::Binary(bytes))` -/
+  | bin (bytes : List Nat)
   | tup (name : Option Str) (fields : List F)
 inductive F where
   | mk (label : Option Str) (value : T)
@@ -92,6 +97,8 @@ mutual
 /-- every leaf and field label is an `identifier`, every tuple name a `tuple_name` of the language -/
 def T.WF : T → Prop
   | .leaf n => isIdentStr n = true
+  | .int _ => True
+  | .bin bs => ∀ b ∈ bs, b < 256
   | .tup name fs => optOk isTupleNameStr name ∧ F.WFList fs
 def F.WF : F → Prop
   | .mk l t => optOk isIdentStr l ∧ T.WF t
@@ -101,6 +108,17 @@ def F.WFList : List F → Prop
 end
 
 /-! ### AST → Doc (format.rs) -/
+
+/-- `BigInt::to_string` -/
+def intText (i : Int) : Str := if i < 0 then '-' :: Parse.natDigits i.natAbs else Parse.natDigits i.natAbs
+
+/-- `hex::encode`: two lower-case digits per byte -/
+def hexText : List Nat → Str
+  | [] => []
+  | b :: bs => QM.hexChar (b / 16) :: QM.hexChar (b % 16) :: hexText bs
+
+/-- `render_literal` of a binary: `0x` and the hex digits -/
+def binText (bs : List Nat) : Str := '0' :: 'x' :: hexText bs
 
 /-- `CHAIN_SOFT_WIDTH` -/
 def chainSoftWidth : Nat := 50
@@ -126,6 +144,8 @@ mutual
 /-- `term_doc` (`render_access` of a bare identifier; `tuple_doc`) -/
 def termDoc : T → Doc
   | .leaf n => .text n
+  | .int i => .text (intText i)
+  | .bin bs => .text (binText bs)
   | .tup name fs => if fs.isEmpty then .text (emptyText name) else bracketed (openText name) (fieldDocs fs)
 /-- `field_doc`: `chain_doc`, behind `name: ` for a named field -/
 def fieldDocOf : F → Doc
@@ -190,12 +210,39 @@ def tupleP (field : P F) : P T :=
     (alt (pmap (bracketsP field) (T.tup none))
       (bind tupleName fun n => pmap (peekNot (seq ws0 (pchar '('))) (fun _ => T.tup (some n) [])))
 
-/-- `primary` restricted to the fragment (tuple | access of a bare identifier); the recursion through
+/-- `digit1` -/
+def digit1 : P Str := fun i =>
+  let ds := i.takeWhile isDigit
+  if ds.isEmpty then .err i .digit else .ok ds (i.dropWhile isDigit)
+
+/-- `integer_literal`: `pair(opt(char('-')), map_res(digit1, parse::<BigInt>))` (a `BigInt` never
+    overflows) -/
+def integerP : P Int :=
+  bind (opt (pchar '-')) fun sign =>
+    pmap digit1 fun ds => if sign.isSome then -(digitsVal ds : Int) else (digitsVal ds : Int)
+
+def isHexDigit (c : Char) : Bool := (QM.hexDigit c).isSome
+
+/-- `binary_literal`: `preceded(tag("0x"), take_while(is_ascii_hexdigit))`, then `hex::decode`. (An odd
+    number of digits is a nom `Failure` in the Rust; the model has no hard failures and answers a
+    plain error — fragment texts never get there.) -/
+def binaryP : P (List Nat) :=
+  seq (ptag ['0', 'x']) fun i =>
+    match QM.parseHexNat (i.takeWhile isHexDigit) with
+    | some bs => .ok bs (i.dropWhile isHexDigit)
+    | none => .err i .verify
+
+/-- `literal` = `alt((binary_literal, integer_literal))` -/
+def literalP : P T := alt (pmap binaryP T.bin) (pmap integerP T.int)
+
+/-- `primary` restricted to the fragment (literal | tuple | access of a bare identifier — in the order
+    of the Rust `alt`; `decimal_term` / `fraction_term`, tried before `literal`, fail when the digits are
+    not followed by `.` / `/`, which `Stop` excludes); the recursion through
     `tuple_field` → `chain` → `primary` is tied by fuel as in Core/Parse/Type (`Res.out` = fuel
     exhausted). -/
 def termP : Nat → P T
   | 0 => fun _ => .out
-  | n + 1 => alt (tupleP (fieldP (termP n))) (pmap identifier T.leaf)
+  | n + 1 => alt literalP (alt (tupleP (fieldP (termP n))) (pmap identifier T.leaf))
 
 /-- `eof` -/
 def peof : P Unit := fun i =>
